@@ -9,6 +9,7 @@ import Driver.ReqRep
 import Driver.PubClient
 import Driver.ReqClient
 import Driver.Registry
+import Driver.Tls
 
 /-! `drv`: one case per input line, one result per output line (see /verif/DESIGN.md, section 3.2). -/
 
@@ -22,6 +23,7 @@ def step (line : String) : String :=
   | "fan" :: rest => Driver.Fanout.run rest
   | "ps" :: rest => Driver.PubSub.run rest
   | "rr" :: rest => Driver.ReqRep.run rest
+  | "tls" :: rest => Driver.Tls.run rest
   | "rq" :: rest => Driver.ReqClient.run rest
   | "pp" :: rest => Driver.PubClient.run rest
   | "ppx" :: rest => Driver.PubClient.run rest
